@@ -23,6 +23,8 @@ const c09Scale = 4.0
 // c09Off translates the whole configuration (ring and query points) in the real call; the events keep the
 // untranslated lattice coordinates, the predicate being translation invariant. All sums are exact in float64.
 var c09Off [2]float64
+var c09Calls int
+var c09Arena = make([]orb.Point, 512)
 
 var c09Offsets = [][2]float64{{0, 0}, {16384, 16384}, {500000, 4000000}, {1 << 20, -(1 << 22)}, {-(1 << 30), 1 << 30}, {1 << 40, 1 << 40}, {0.25, -1e6}}
 
@@ -46,7 +48,14 @@ func c09Run(c *ctx, fn string, mp [][][][2]int, q [][2]int) {
 	}
 	// the rings are consecutive sections of one coordinate buffer (each with capacity reaching into the next): a
 	// containment test is a read-only question and must not disturb its neighbours
+	// ... and for runs of six events out of eight that buffer is one and the same array, refilled in place: the next
+	// geometry sits at the addresses of the previous one
+	c09Calls++
+	if c09Calls%8 < 6 {
+		sharedArena = c09Arena
+	}
 	g = sharedBuffer(g).(orb.MultiPolygon)
+	sharedArena = nil
 	setCurrent("planar."+fn, mp)
 	ones := 0
 	site := guard(func() {
